@@ -1,4 +1,5 @@
 From Coq Require Import Extraction ExtrOcamlBasic.
 From SqfsV Require Import C02.BpModel C02.BpConcrete C02.EnvModel.
 Extraction "c02_model.ml" run_concrete obs_writes obs_inodes obs_ftbl obs_file obs_backlog enc_flags setf size_word
-  get_source_date_epoch default_mtime.
+  get_source_date_epoch default_mtime
+  new_inode i_set_file_size i_set_block_start i_make_extended i_make_basic i_add_sparse i_set_frag.
